@@ -346,3 +346,62 @@ func init() {
 		Quick: 3, Thorough: 4, Desc: "Call(key, nil) (refused by a panic, recovered) concurrent with a valid Call on the same key",
 		Opts: vrt.Options{Delay: true}, Run: xMisuse, Check: exclusiveCheck})
 }
+
+// X-resolve-gap (added after seed C10-r7a): two callers are coalesced into the execution that
+// follows a running one; its work function resolves and then returns only after both callers have
+// received their outcome (a work function that hands out a resource and tears it down once every
+// consumer is done). Every caller of the batch must be answered by the resolve, not by the return.
+func xResolveGap() {
+	x := &xEnv{e: new(Exclusive)}
+	var (
+		started    = make(chan struct{})
+		finish     = make(chan struct{})
+		registered sync.WaitGroup
+		answered   sync.WaitGroup
+	)
+	x.wg.Add(1)
+	go func() {
+		defer x.wg.Done()
+		vrt.Log("call", 0, "async", "k", "w0")
+		o := <-x.e.CallAsync("k", func() (interface{}, error) {
+			vrt.Log("start", "w0", "k")
+			close(started)
+			<-finish
+			vrt.Log("end", "w0", "k")
+			return "w0", nil
+		})
+		rs, es := outcomeStr(o.Result, o.Error)
+		vrt.Log("outcome", 0, rs, es)
+	}()
+	<-started
+	registered.Add(2)
+	answered.Add(2)
+	for i := 1; i <= 2; i++ {
+		name := fmt.Sprintf("g%d", i)
+		x.wg.Add(1)
+		go func() {
+			defer x.wg.Done()
+			vrt.Log("call", i, "call", "k", name)
+			ch := x.e.CallWithOptions(ExclusiveKey("k"), ExclusiveWork(func(resolve func(interface{}, error)) {
+				vrt.Log("start", name, "k")
+				resolve(name, nil)
+				answered.Wait()
+				vrt.Log("end", name, "k")
+			}))
+			registered.Done()
+			o := <-ch
+			rs, es := outcomeStr(o.Result, o.Error)
+			vrt.Log("outcome", i, rs, es)
+			answered.Done()
+		}()
+	}
+	registered.Wait()
+	close(finish)
+	x.finish("k")
+}
+
+func init() {
+	vrt.Register(&vrt.Scenario{Name: "X-resolve-gap", Props: []string{"C09:overlap,key-", "C10", "C11:race", "C12:goroutine-leak"},
+		Quick: 3, Thorough: 4, Desc: "two callers coalesced behind a running execution; their work function resolves, then returns only once both have been answered",
+		Opts: vrt.Options{Delay: true}, Run: xResolveGap, Check: exclusiveCheck})
+}
